@@ -25,7 +25,13 @@ reaches for a static reason.  `cfg.panics = false` is the current code, `true` t
    except that a panic at a fixed site became the runtime error `site.fallback` with the same
    output; `current_panics_only_residual`: the current code can only panic at a residual site —
    for EVERY program, accepted or not.
-3. C06 (`c06_full`): accepted ⇒ no panic.  `c06_of_static_guarantees` proves it from the explicit,
+3. C06 (`c06_full`): accepted ⇒ no panic.  NOTE: as written here `c06_full` and `ResidualUnreachable`
+   quantify over ARBITRARY optimisation plans, number instances and annotated blocks; that is stronger than
+   the property and false (`Props/C06Accepted.lean`: `c06_full_is_false_for_arbitrary_plans` — a plan that
+   removes a called function).  The statement for what the pipeline actually runs, with all nine residual
+   sites discharged from the lexer / parser / resolver models, is `C06Accepted.c06_pipeline` /
+   `c06_source` / `c06_accepted` (hypotheses: the plan keeps called functions, the number type parses
+   digit lexemes).  `c06_of_static_guarantees` proves `c06_full` from the explicit,
    narrow hypothesis `ResidualUnreachable` — accepted programs do not reach the nine residual
    sites, each of which is a static guarantee of scanner / parser / resolver (listed at
    `PanicSite.fixed`) whose proof belongs to the resolver model.  The seven historical witnesses
